@@ -178,9 +178,17 @@ func setKey(ids []uint64) string {
 	return fmt.Sprint(s)
 }
 
+var shared *mon.Recorder
+
+func TestMain(m *testing.M) {
+	shared = mon.Open("C16")
+	code := m.Run()
+	shared.Close()
+	os.Exit(code)
+}
+
 func TestC16(t *testing.T) {
-	rec := mon.Open("C16")
-	defer rec.Finish(t)
+	rec := shared
 	rand.Seed(rec.Seed()) // the allocator shuffles with the global source
 	T := rec.N(60, 400)   // calls per configuration
 	caseNo := 0
